@@ -79,6 +79,20 @@ def ident(values, from_unit, to_unit=None):
     return np.array(np.asarray(values), copy=True), (to_unit if to_unit is not None else from_unit + "_base")
 
 
+def inplace(values, from_unit, to_unit=None):
+    """a converter that avoids temporaries: doubles the buffer it is handed IN PLACE and returns that buffer"""
+    import numpy as np
+    buf = np.asarray(values)
+    np.multiply(buf, 2, out=buf)
+    return buf, (to_unit if to_unit is not None else from_unit + "_base")
+
+
+def doubled(values, from_unit, to_unit=None):
+    """what `inplace` computes, without touching its input (the oracle's reference for it)"""
+    import numpy as np
+    return np.asarray(values) * 2, (to_unit if to_unit is not None else from_unit + "_base")
+
+
 def decoy(values, from_unit, to_unit=None):
     """the converter that must NOT be in force: installed as module default while another one is passed explicitly"""
     import numpy as np
@@ -142,13 +156,14 @@ class ConvBoom(RuntimeError):
 UNITS = {"affine": ["u1", "u2", "uh", "uk", "p", "q"],
          "demo": ["mm", "m", "C", "K", "g", "kg", "meter"],
          "pint": ["mm", "m", "cm", "km", "g", "kg", "degC", "kelvin", "s", "min"],
-         "ident": ["m", "mm", "anything"]}
+         "ident": ["m", "mm", "anything"], "inplace": ["m", "mm", "km"]}
 BAD_UNITS = {"affine": ["zz", "m"], "demo": ["furlong", "u1"], "pint": ["kg", "m", "nosuchunit"],
-             "ident": ["text", "onoff", "datetime"]}     # special units requested for a numeric column: relabelled
-PURE = {"affine": affine, "demo": demo, "pint": pint_conv, "ident": ident}
+             "ident": ["text", "onoff", "datetime"],     # special units requested for a numeric column: relabelled
+             "inplace": ["cm"]}
+PURE = {"affine": affine, "demo": demo, "pint": pint_conv, "ident": ident, "inplace": inplace}
 # what the oracle calls to obtain the expected values: for the two converters that ship with pdtable, references that
 # do not go through pdtable's own modules
-REF = {"affine": affine, "demo": demo_direct, "pint": pint_direct, "ident": ident}
+REF = {"affine": affine, "demo": demo_direct, "pint": pint_direct, "ident": ident, "inplace": doubled}
 # units that differ in letter case only and are different units (milli / mega, …)
 CASE_PAIRS = [("mm", "Mm"), ("mPa", "MPa"), ("mW", "MW"), ("ms", "Ms"), ("mg", "Mg"), ("mN", "MN")]
 CASE_PARTNER = {a: b for a, b in CASE_PAIRS} | {b: a for a, b in CASE_PAIRS}
@@ -239,10 +254,34 @@ def same_toks(xs, ys):
 
 # ---------------------------------------------------------------- tables
 
+def expand_values(col):
+    """`{"seq": n}`: n deterministic values (long tables are written down compactly in the case)"""
+    v = col["values"]
+    if not isinstance(v, dict):
+        return v
+    n = v["seq"]
+    if col["kind"] == "int":
+        return [(i * 37) % 1000 - 500 for i in range(n)]
+    if col["kind"] == "float":
+        return [None if i % 97 == 5 else ((i * 53) % 4096) / 8.0 - 100.0 for i in range(n)]
+    if col["kind"] == "text":
+        return ["r%d" % (i % 7) for i in range(n)]
+    if col["kind"] == "bool":
+        return [i % 3 == 0 for i in range(n)]
+    raise InfraError("no sequence for kind " + col["kind"])
+
+
+def expand_index(index, n):
+    if isinstance(index, dict):
+        return {"rev": list(range(n - 1, -1, -1)), "odd_even": list(range(1, n, 2)) + list(range(0, n, 2)),
+                "strings": ["r%d" % i for i in range(n)]}[index["gen"]]
+    return index
+
+
 def make_array(col):
     import numpy as np
     import pandas as pd
-    k, vals = col["kind"], col["values"]
+    k, vals = col["kind"], expand_values(col)
     if k == "int":
         return np.array(vals, dtype=np.int64)
     if k == "float":
@@ -260,7 +299,7 @@ def build(spec):
     import pandas as pd
     from pdtable import Table
     n = spec["nrows"]
-    idx = pd.Index(spec["index"]) if spec["index"] is not None else pd.RangeIndex(n)
+    idx = pd.Index(expand_index(spec["index"], n)) if spec["index"] is not None else pd.RangeIndex(n)
     data = {}
     for c in spec["cols"]:
         arr = make_array(c)
@@ -698,7 +737,7 @@ def gen_conv(rng, family):
 
 
 def gen_case(rng, seed, idx, tier):
-    family = rng.choice(["affine", "affine", "affine", "demo", "demo", "pint", "ident"])
+    family = rng.choice(["affine", "affine", "affine", "demo", "demo", "pint", "ident", "inplace"])
     table = gen_table(rng, family)
     to = gen_to(rng, table, family)
     conv = gen_conv(rng, family)
@@ -709,6 +748,30 @@ def gen_case(rng, seed, idx, tier):
     if to["kind"] in ("dict", "list", "callable") and rng.random() < 0.4:
         case["repeat"] = rng.choice([1, 2])
     return case
+
+
+LADDER = [60, 63, 64, 65, 127, 128, 129, 255, 256, 257, 1000, 1023, 1024, 1025, 2047, 2048, 2049, 4095, 4096, 4097,
+          8191, 8192, 8193, 12288, 16384, 20001]
+LADDER_QUICK = [1025, 4096, 4097, 8192, 8193, 12288]     # always: above 1024, 4096 and 8192; exact multiples of 4096
+
+
+def ladder_cases(rng, seed, tier):
+    """long tables: every row of every converted column is compared by position with the direct converter result"""
+    sizes = LADDER if tier == "thorough" else LADDER_QUICK + rng.sample([x for x in LADDER if x < 1025], 2)
+    out = []
+    for k, n in enumerate(sizes):
+        family = ["affine", "inplace", "demo", "affine"][k % 4]
+        u = {"affine": ("u1", "u2", "uk"), "inplace": ("m", "mm", "km"), "demo": ("mm", "m", "m")}[family]
+        cols = [{"name": "a", "kind": "float", "unit": u[1], "values": {"seq": n}},
+                {"name": "b", "kind": "int", "unit": u[2], "values": {"seq": n}},
+                {"name": "c", "kind": "text", "unit": "text", "values": {"seq": n}}]
+        table = {"name": "long", "dests": ["all"], "nrows": n, "index_kind": "ladder",
+                 "index": rng.choice([None, {"gen": "rev"}, {"gen": "odd_even"}, {"gen": "strings"}]), "cols": cols}
+        to = rng.choice([{"kind": "str", "s": "base"}, {"kind": "dict", "m": [["a", u[0]], ["b", u[0]]]},
+                         {"kind": "list", "xs": [u[0], None, None]}, {"kind": "callable", "m": [["b", u[0]]]}])
+        out.append({"seed": seed, "index": -1000 - k, "family": family, "table": table, "to": to,
+                    "conv": {"kind": "pure", "pure": family}, "rows": n})
+    return out
 
 
 def fixed_cases(seed):
@@ -780,6 +843,8 @@ def eval_case(case, out, ops, pend, model_ok, record=True):
     if "probe_error" in obs:
         out.count("aliasing_probe_error:" + obs["probe_error"])
     out.count("index:" + case["table"].get("index_kind", "?"))
+    if case.get("rows"):
+        out.count("ladder_rows:%d" % case["rows"])
     out.count("outcome:" + obs.get("exc", "table"))
     out.count("converter_calls:" + str(min(len(obs["log"]), 4)))
     nontrivial = bool(obs["log"]) or obs.get("exc") in ("UnitConversionNotDefinedError",)
@@ -808,14 +873,17 @@ def run(tier, seed, model_ok, translator, search=False):
                 "non-dispatcher objects, per-column __base__/__origin__) x converter (affine with known inverse, "
                 "pdtable.demo convert_this, pdtable pint_converter; each also failing on its k-th call, returning a "
                 "wrong length, installed as default converter, passed explicitly while a DIFFERENT converter is the "
-                "module default, or absent); pint units differing in letter case only; the caller's dispatcher object compared with its snapshot "
+                "module default, or absent); a converter computing in place on the buffer it is handed; long tables on a "
+                "size ladder (rows at and around 64 … 1024, 4096, 8192, 12288, 20001; every row compared by position); "
+                "pint units differing in letter case only; the caller's dispatcher object compared with its snapshot "
                 "and reused for up to three consecutive conversions; after every returned table the result and then the original are edited "
                 "in place (destinations, name, a unit, a cell) and the other one is compared with its snapshot. Non-trivial: the converter was called or a "
                 "special column was refused.")
     rng = make_rng(seed, "C06")
     ops, pend = [], []
     n = 14000 if tier == "thorough" else 4000
-    cases = fixed_cases(seed) + [gen_case(rng, seed, i, tier) for i in range(n)]
+    cases = fixed_cases(seed) + ladder_cases(make_rng(seed, "C06-ladder"), seed, tier) + \
+        [gen_case(rng, seed, i, tier) for i in range(n)]
     for case in cases:
         eval_case(case, out, ops, pend, model_ok)
         if len(out.failures) >= 50:
